@@ -121,7 +121,7 @@ def run_obligation(name, tier="quick", seed=0, do_diff=True):
     t0 = time.time()
     rec = {"name": name, "props": ob.props, "kind": ob.kind, "funcs": ob.funcs, "status": None, "clauses": {},
            "paths": 0, "vcs": 0, "covers": 0, "solver_s": 0.0, "backends": {}, "notes": [], "diff": None,
-           "failures": []}
+           "failures": [], "uses": list(ob.uses)}
     timeout_ms = ob.timeout_ms or (20000 if tier == "quick" else 120000)
     try:
         ip = new_interp()
@@ -145,6 +145,7 @@ def run_obligation(name, tier="quick", seed=0, do_diff=True):
                 core.ensure("no-unexpected-exception", False,
                             note="escaped: %s%r" % (pr.exc.cls.name, pr.exc.args))
 
+        tph = time.time()
         try:
             vcs = E.explore(thunk)
         except Undecided as u:
@@ -158,6 +159,8 @@ def run_obligation(name, tier="quick", seed=0, do_diff=True):
             rec["notes"].append("path budget: %s" % u)
             rec["wall_s"] = time.time() - t0
             return rec
+        rec["phase_s"] = {"explore": round(time.time() - tph, 2)}
+        tph = time.time()
         rec["paths"] = E.paths
         rec["vcs"] = len(vcs)
         rec["called"] = sorted(set(called))
@@ -170,22 +173,24 @@ def run_obligation(name, tier="quick", seed=0, do_diff=True):
         import z3
 
         cover_ok = {}
+        path_sat = {}
         for vc in vcs:
-            if cover_ok.get(vc.clause):
+            if cover_ok.get(vc.clause) is True:
                 continue
-            s = z3.Solver()
-            s.set("timeout", 3000)
-            for c in vc.pc:
-                s.add(c)
-            r = s.check()
-            if r == z3.sat or r == z3.unknown:
-                cover_ok[vc.clause] = True if r == z3.sat else cover_ok.get(vc.clause, None)
-                if r == z3.unknown and cover_ok[vc.clause] is None:
-                    cover_ok[vc.clause] = "unknown"
-            else:
+            if vc.path_id not in path_sat:
+                path_sat[vc.path_id] = eng._z3_attempt(list(vc.pc), lambda: z3.Solver(), 2000, False)[0]
+            r_ = path_sat[vc.path_id]
+            if r_ == "sat":
+                cover_ok[vc.clause] = True
+            elif r_ == "unsat":
                 cover_ok.setdefault(vc.clause, False)
+            else:
+                if not cover_ok.get(vc.clause):
+                    cover_ok[vc.clause] = "unknown"
         rec["covers"] = sum(1 for v in cover_ok.values() if v)
         vacuous = [c for c, v in cover_ok.items() if v is False]
+        rec["phase_s"]["covers"] = round(time.time() - tph, 2)
+        tph = time.time()
         # discharge
         status = "proved"
         for vc in vcs:
@@ -206,6 +211,7 @@ def run_obligation(name, tier="quick", seed=0, do_diff=True):
         if vacuous and status == "proved":
             status = "fault"
             rec["notes"].append("vacuous clauses (path condition unsatisfiable on every path): %s" % vacuous)
+        rec["phase_s"]["solve"] = round(time.time() - tph, 2)
         rec["status"] = status
         rec["solver_s"] = round(rec["solver_s"] + E.solver_time, 3)
         # replay of counter-models on the real code
@@ -215,6 +221,21 @@ def run_obligation(name, tier="quick", seed=0, do_diff=True):
         # differential self-check of the executor against CPython
         if do_diff and ob.kind != "L" and ob.samples:
             rec["diff"] = differential(ob, name, seed)
+            # a clause the solver could not decide but which is false on the real code for a sampled input is
+            # refuted by that witness (bounded refutation on the real code; never used to *prove* anything)
+            for c, vals, ch in rec["diff"].get("clause_false", []):
+                cl = rec["clauses"].get(c)
+                if cl and cl["sat"] == 0 and cl["unknown"] > 0:
+                    cl["sat"] += 1
+                    cl["unknown"] = 0
+                    rec["failures"].append({"clause": c, "path": None, "model": vals, "note": "random witness",
+                                            "choices": ch, "backend": "sampling",
+                                            "replay": {"reproduced": True, "values": vals, "choices": ch,
+                                                       "status": "ok", "results": [[c, False]]}})
+            if any(cl["sat"] for cl in rec["clauses"].values()):
+                status = rec["status"] = "refuted"
+            elif status == "undecided" and not any(cl["unknown"] for cl in rec["clauses"].values()):
+                status = rec["status"] = "proved"
             if rec["diff"]["mismatch"]:
                 rec["status"] = "fault"
                 rec["notes"].append("executor disagrees with CPython: %s" % rec["diff"]["mismatch"][:2])
